@@ -17,9 +17,11 @@ Definition member (cs : list cfg) (m : nat) : cfg := nth m cs cfg0.
 
 Definition gname := (nat * nat)%type.
 Definition local (u : guse gname) : use :=
-  match u with GFlag i => UFlag (snd i) | GVal i v => UVal (snd i) v end.
+  match u with GFlag i => UFlag (snd i) | GVal i v => UVal (snd i) v | GFree _ => UFlag 0 end.
 Definition owner (u : guse gname) : nat :=
-  match u with GFlag i => fst i | GVal i _ => fst i end.
+  match u with GFlag i => fst i | GVal i _ => fst i | GFree _ => 0 end.
+(** a use named by a key (not a free value) *)
+Definition keyed (u : guse gname) : Prop := match u with GFree _ => False | _ => True end.
 
 (** one use in a group: the owning member performs it, all other members
     forget their last argument *)
@@ -33,8 +35,19 @@ Fixpoint gstep_at (cs : list cfg) (ss : list hstate) (m : nat) (u : use) : res (
   | _, _ => Err ERuntime
   end.
 
+(** a free value in a group: whatever Groups::evalArguments does with a value
+    element (first the member that identified the last argument, then the
+    others); refused by all = the error of the loop *)
+Definition gfree_step (cs : list cfg) (ss : list hstate) (v : str) : res (list hstate) :=
+  do r <- offer false cs ss (EVal v) (bw []);
+  let '(a, ss1, _) := r in
+  match a with AUnknown => Err ERuntime | AConsumed => Ok ss1 end.
+
 Definition gustep (cs : list cfg) (ss : list hstate) (u : guse gname) : res (list hstate) :=
-  gstep_at cs ss (owner u) (local u).
+  match u with
+  | GFree v => gfree_step cs ss v
+  | _ => gstep_at cs ss (owner u) (local u)
+  end.
 
 (** member [m] is the first one whose table resolves key [k] (to index [j]) *)
 Fixpoint owns (cs : list cfg) (m : nat) (k : key) (j : nat) : Prop :=
@@ -62,6 +75,7 @@ Definition gspell_grp (cs : list cfg) : list (guse gname) -> list str -> Prop :=
 Fixpoint proj (m : nat) (gus : list (guse gname)) : list use :=
   match gus with
   | [] => []
+  | GFree _ :: r => proj m r
   | u :: r => if Nat.eqb (owner u) m then local u :: proj m r else proj m r
   end.
 
@@ -148,6 +162,80 @@ Proof.
 Qed.
 
 (* ------------------------------------------------------------------ *)
+(** * Free values: the iterator is only passed through *)
+
+Definition with_it {A} (cur : it) (r : res (ares * A * it)) : res (ares * A * it) :=
+  do x <- r; let '(a, s1, _) := x in Ok (a, s1, cur).
+
+Lemma eval_single_val_cur c s ic v cur cur' :
+  eval_single c s ic (EVal v) cur = with_it cur (eval_single c s ic (EVal v) cur').
+Proof.
+  unfold eval_single, with_it.
+  assert (Hp : (do r <- lookup c POSKEY;
+                match r with
+                | Some j => do s2 <- handle_identified c s j POSKEY ic v; Ok (AConsumed, s2, cur)
+                | None => Ok (AUnknown, s, cur) end)
+               = do x <- (do r <- lookup c POSKEY;
+                          match r with
+                          | Some j => do s2 <- handle_identified c s j POSKEY ic v; Ok (AConsumed, s2, cur')
+                          | None => Ok (AUnknown, s, cur') end);
+                 let '(a, s1, _) := x in Ok (a, s1, cur)).
+  { destruct (lookup c POSKEY) as [[j|]|?|?]; cbn [bind]; auto.
+    destruct (handle_identified c s j POSKEY ic v); reflexivity. }
+  destruct (last s) as [i|]; [|exact Hp].
+  destruct (a_multi (nth i (args c) dummy_def)); [|exact Hp].
+  destruct (assign_value c s i ic v); reflexivity.
+Qed.
+
+Lemma offer_sel_val_cur sel v cur cur' : forall cs ss,
+  offer_sel sel false cs ss (EVal v) cur = with_it cur (offer_sel sel false cs ss (EVal v) cur').
+Proof.
+  induction cs as [|c cr IH]; intros [|s sr]; try reflexivity. cbn [offer_sel].
+  destruct (sel s).
+  - rewrite (eval_single_val_cur c s false v cur cur'). unfold with_it at 1.
+    destruct (eval_single c s false (EVal v) cur') as [[[a s1] i1]|?|?]; cbn [bind with_it]; auto.
+    destruct a; cbn [bind]; auto.
+    rewrite (IH sr). unfold with_it.
+    destruct (offer_sel sel false cr sr (EVal v) cur') as [[[a2 sr'] i2]|?|?]; reflexivity.
+  - rewrite (IH sr). unfold with_it.
+    destruct (offer_sel sel false cr sr (EVal v) cur') as [[[a2 sr'] i2]|?|?]; reflexivity.
+Qed.
+
+Lemma offer_val_cur v cur cur' cs ss :
+  offer false cs ss (EVal v) cur = with_it cur (offer false cs ss (EVal v) cur').
+Proof.
+  unfold offer. cbn [is_value negb andb].
+  rewrite (offer_sel_val_cur has_last v cur cur'). unfold with_it at 1.
+  destruct (offer_sel has_last false cs ss (EVal v) cur') as [[[a ss1] i1]|?|?]; cbn [bind with_it]; auto.
+  destruct a; auto. apply offer_sel_val_cur.
+Qed.
+
+Lemma offer_sel_length sel e cur : forall cs ss a ss' i',
+  offer_sel sel false cs ss e cur = Ok (a, ss', i') -> length ss' = length ss.
+Proof.
+  induction cs as [|c cr IH]; intros [|s sr] a ss' i' H; cbn [offer_sel] in H; try (inversion H; reflexivity).
+  destruct (sel s).
+  - destruct (eval_single c s false e cur) as [[[a1 s1] i1]|?|?]; cbn [bind] in H; try discriminate.
+    destruct a1.
+    + cbn [orb] in H. destruct (is_value e); inversion H; subst; cbn [length]; rewrite ?map_length; reflexivity.
+    + destruct (offer_sel sel false cr sr e cur) as [[[a2 sr'] i2]|?|?] eqn:E; cbn [bind] in H; try discriminate.
+      inversion H; subst. cbn [length]. rewrite (IH _ _ _ _ E). reflexivity.
+  - destruct (offer_sel sel false cr sr e cur) as [[[a2 sr'] i2]|?|?] eqn:E; cbn [bind] in H; try discriminate.
+    inversion H; subst. cbn [length]. rewrite (IH _ _ _ _ E). reflexivity.
+Qed.
+
+Lemma offer_length e cur cs ss a ss' i' :
+  offer false cs ss e cur = Ok (a, ss', i') -> length ss' = length ss.
+Proof.
+  unfold offer. destruct (is_value e && negb false).
+  - destruct (offer_sel has_last false cs ss e cur) as [[[a1 ss1] i1]|?|?] eqn:E; cbn [bind]; try discriminate.
+    destruct a1.
+    + intros H; inversion H; subst. eapply offer_sel_length; eauto.
+    + intros H. rewrite (offer_sel_length _ _ _ _ _ _ _ _ H). eapply offer_sel_length; eauto.
+  - apply offer_sel_length.
+Qed.
+
+(* ------------------------------------------------------------------ *)
 (** * The group loop on a spelled line = fold of [gustep] *)
 
 Lemma iterate_group_giter cs fuel : forall ss cur,
@@ -169,7 +257,12 @@ Proof.
   - destruct (first ws); cbn [bind]; auto. apply iterate_group_giter.
   - intros i w (Hw & He & _). auto.
   - intros i ch (Hc & _). exact Hc.
-  - intros s u s' Hs Hu. unfold gustep in Hu. rewrite (gstep_at_length _ _ _ _ _ Hu). exact Hs.
+  - intros s u s' Hs Hu. unfold gustep in Hu. destruct u as [i|i v|v].
+    + rewrite (gstep_at_length _ _ _ _ _ Hu). exact Hs.
+    + rewrite (gstep_at_length _ _ _ _ _ Hu). exact Hs.
+    + unfold gfree_step in Hu.
+      destruct (offer false cs s (EVal v) (bw [])) as [[[a ss1] i1]|?|?] eqn:E; cbn [bind] in Hu; try discriminate.
+      destruct a; inversion Hu; subst. rewrite (offer_length _ _ _ _ _ _ _ E). exact Hs.
   - intros s [m j] w cur Hs (Hw & He & k & Hk & Ho) Hn. unfold gustep. cbn [owner local fst snd] in *.
     apply offer_routed; auto.
     apply (owns_routed_flag (EStr w) k cur); auto.
@@ -184,6 +277,8 @@ Proof.
   - intros s [m j] ch cur v it2 Hs (Hc & Ho) Hn Hnx. unfold gustep. cbn [owner local fst snd] in *.
     apply offer_routed; auto.
     apply (owns_routed_val (EChar ch) (key_of_char ch) cur v it2); auto.
+  - intros s v cur _. unfold gustep, gfree_step. rewrite (offer_val_cur v cur (bw [])). unfold with_it.
+    destruct (offer false cs s (EVal v) (bw [])) as [[[a ss1] i1]|?|?]; cbn [bind]; auto. destruct a; reflexivity.
 Qed.
 
 (* ------------------------------------------------------------------ *)
@@ -250,24 +345,32 @@ Qed.
 Lemma forget_forget s : forget_last (forget_last s) = forget_last s.
 Proof. reflexivity. Qed.
 
+Lemma gustep_keyed cs ss u : keyed u -> gustep cs ss u = gstep_at cs ss (owner u) (local u).
+Proof. destruct u; cbn; tauto. Qed.
+
+Lemma proj_keyed m u r : keyed u ->
+  proj m (u :: r) = if Nat.eqb (owner u) m then local u :: proj m r else proj m r.
+Proof. destruct u; cbn; tauto. Qed.
+
 (** a successful group fold: every member folds its own uses successfully and
     ends in the same state (up to the transient "last argument") *)
 Lemma gfold_proj cs : forall gus ss ss',
-  length ss = length cs ->
+  Forall keyed gus -> length ss = length cs ->
   gfold gname (list hstate) (gustep cs) ss gus = Ok ss' ->
   length ss' = length cs /\
   forall m, m < length cs ->
     exists sm, fold_uses (member cs m) (nth m ss st0) false (proj m gus) = Ok sm /\
                forget_last sm = forget_last (nth m ss' st0).
 Proof.
-  induction gus as [|u r IH]; intros ss ss' Hl H; cbn [gfold] in H.
+  induction gus as [|u r IH]; intros ss ss' Hk Hl H; cbn [gfold] in H.
   - inversion H; subst. split; [exact Hl|]. intros m Hm. exists (nth m ss' st0). split; reflexivity.
-  - destruct (gustep cs ss u) as [ss1|?|?] eqn:E; cbn [bind] in H; try discriminate.
-    unfold gustep in E.
+  - inversion Hk as [|? ? Hku Hkr]; subst.
+    destruct (gustep cs ss u) as [ss1|?|?] eqn:E; cbn [bind] in H; try discriminate.
+    rewrite (gustep_keyed _ _ _ Hku) in E.
     assert (Hl1 : length ss1 = length cs) by (rewrite (gstep_at_length _ _ _ _ _ E); exact Hl).
     destruct (gstep_at_nth cs ss _ _ ss1 Hl E) as (Hu & Ho).
-    destruct (IH ss1 ss' Hl1 H) as (Hl' & Hall). split; [exact Hl'|].
-    intros m Hm. cbn [proj]. destruct (Nat.eqb_spec (owner u) m) as [Heq|Hne].
+    destruct (IH ss1 ss' Hkr Hl1 H) as (Hl' & Hall). split; [exact Hl'|].
+    intros m Hm. rewrite (proj_keyed m u r Hku). destruct (Nat.eqb_spec (owner u) m) as [Heq|Hne].
     + subst m. cbn [fold_uses]. rewrite Hu. cbn [bind]. apply Hall. exact Hm.
     + destruct (Hall m Hm) as (sm & Hf & Hs). rewrite (Ho m ltac:(congruence) Hm) in Hf.
       pose proof (fold_uses_sim (member cs m) false (proj m r) _ _ (forget_forget (nth m ss st0))) as Hsim.
@@ -280,23 +383,23 @@ Qed.
 (** and conversely: when every member folds its own uses successfully, so does
     the group *)
 Lemma gfold_proj_conv cs : forall gus ss,
-  length ss = length cs -> Forall (fun u => owner u < length cs) gus ->
+  Forall keyed gus -> length ss = length cs -> Forall (fun u => owner u < length cs) gus ->
   (forall m, m < length cs -> is_ok (fold_uses (member cs m) (nth m ss st0) false (proj m gus)) = true) ->
   is_ok (gfold gname (list hstate) (gustep cs) ss gus) = true.
 Proof.
-  induction gus as [|u r IH]; intros ss Hl Hown Hall; [reflexivity|].
-  inversion Hown as [|? ? Hu Hr]; subst. cbn [gfold].
-  pose proof (Hall (owner u) Hu) as H0. cbn [proj] in H0. rewrite Nat.eqb_refl in H0. cbn [fold_uses] in H0.
+  induction gus as [|u r IH]; intros ss Hk Hl Hown Hall; [reflexivity|].
+  inversion Hown as [|? ? Hu Hr]; subst. inversion Hk as [|? ? Hku Hkr]; subst. cbn [gfold].
+  pose proof (Hall (owner u) Hu) as H0. rewrite (proj_keyed _ u r Hku), Nat.eqb_refl in H0. cbn [fold_uses] in H0.
   destruct (use_step (member cs (owner u)) (nth (owner u) ss st0) false (local u)) as [s1|?|?] eqn:E;
     cbn [bind is_ok] in H0; try discriminate.
   destruct (gstep_at_ok cs ss (owner u) (local u) s1 Hl Hu E) as (ss1 & Hg).
-  unfold gustep. rewrite Hg. cbn [bind].
+  rewrite (gustep_keyed _ _ _ Hku), Hg. cbn [bind].
   assert (Hl1 : length ss1 = length cs) by (rewrite (gstep_at_length _ _ _ _ _ Hg); exact Hl).
   destruct (gstep_at_nth cs ss _ _ ss1 Hl Hg) as (Hus & Ho).
   apply IH; auto. intros m Hm. destruct (Nat.eq_dec m (owner u)) as [Heq|Hne].
   - subst m. rewrite E in Hus. inversion Hus as [Hs1]. rewrite <- Hs1. exact H0.
   - rewrite (Ho m Hne Hm).
-    pose proof (Hall m Hm) as Hm'. cbn [proj] in Hm'.
+    pose proof (Hall m Hm) as Hm'. rewrite (proj_keyed m u r Hku) in Hm'.
     destruct (Nat.eqb_spec (owner u) m) as [Heq|_]; [congruence|].
     pose proof (fold_uses_sim (member cs m) false (proj m r) _ _ (forget_forget (nth m ss st0))) as Hsim.
     destruct (fold_uses (member cs m) (nth m ss st0) false (proj m r)); cbn [is_ok] in Hm'; try discriminate.
@@ -326,7 +429,7 @@ Proof.
   destruct H as (_ & H). apply IH in H. lia.
 Qed.
 
-Lemma gspell_owner_lt cs gus ws : gspell_grp cs gus ws -> Forall (fun u => owner u < length cs) gus.
+Lemma gspell_owner_lt cs gus ws : cs <> [] -> gspell_grp cs gus ws -> Forall (fun u => owner u < length cs) gus.
 Proof.
   assert (Hl : forall i w, glname cs i w -> fst i < length cs).
   { intros i w (_ & _ & k & _ & Ho). eapply owns_lt; eauto. }
@@ -336,7 +439,9 @@ Proof.
                            Forall (fun u => owner u < length cs) (map (fun p => GFlag (fst p)) fs)).
   { induction fs as [|[i ch] fr IHf]; intros Hf; cbn [map]; constructor;
       inversion Hf as [|? ? (Hsn & _) Hr]; subst; eauto. }
+  intros Hne. assert (H0 : 0 < length cs) by (destruct cs; [congruence|cbn; lia]).
   unfold gspell_grp. induction 1; try (apply Forall_app; split); try constructor; cbn [owner]; eauto.
+  apply Forall_forall. intros u Hu. apply in_map_iff in Hu. destruct Hu as (v & <- & _). exact H0.
 Qed.
 
 Lemma init_states_length cs : forall initss, length initss = length cs ->
@@ -363,20 +468,20 @@ Proof. unfold eval_group. destruct (first ws); reflexivity. Qed.
     handler, evaluating alone exactly its own uses in line order, accepts them,
     passes its complete end-of-line checks and stores the same values. *)
 Theorem group_projection cs initss gus ws ss' :
-  all_fixed cs -> length initss = length cs -> gspell_grp cs gus ws ->
+  all_fixed cs -> length initss = length cs -> gspell_grp cs gus ws -> Forall keyed gus ->
   eval_group false false cs initss ws = Ok ss' ->
   forall m, m < length cs ->
     exists sm, fold_uses (member cs m) (init_state (member cs m) (nth m initss [])) false (proj m gus) = Ok sm /\
                final_checks (member cs m) sm = Ok tt /\
                forget_last sm = forget_last (nth m ss' st0).
 Proof.
-  intros Hf Hl Hsp H m Hm. destruct cs as [|c cr]; [cbn in Hm; lia|].
+  intros Hf Hl Hsp Hk H m Hm. destruct cs as [|c cr]; [cbn in Hm; lia|].
   rewrite eval_group_unfold in H.
   rewrite (group_words_spelled (c :: cr) gus ws _ Hf (init_states_length _ _ Hl) Hsp) in H.
   destruct (gfold _ _ _ _ gus) as [ss1|?|?] eqn:E; cbn [bind] in H; try discriminate.
   destruct (group_final false (c :: cr) ss1) as [[]|?|?] eqn:Eg; cbn [bind] in H; try discriminate.
   inversion H; subst ss1.
-  destruct (gfold_proj (c :: cr) gus _ ss' (init_states_length _ _ Hl) E) as (Hl' & Hall).
+  destruct (gfold_proj (c :: cr) gus _ ss' Hk (init_states_length _ _ Hl) E) as (Hl' & Hall).
   destruct (Hall m Hm) as (sm & Hfold & Hs). rewrite init_states_nth in Hfold by assumption.
   exists sm. splits; auto.
   rewrite (final_checks_sim _ _ _ Hs). apply (proj1 (group_final_nth (c :: cr) ss' Hl') Eg m Hm).
@@ -385,18 +490,18 @@ Qed.
 (** ... and conversely the group accepts every line whose parts the members
     accept *)
 Theorem group_accepts cs initss gus ws :
-  cs <> [] -> all_fixed cs -> length initss = length cs -> gspell_grp cs gus ws ->
+  cs <> [] -> all_fixed cs -> length initss = length cs -> gspell_grp cs gus ws -> Forall keyed gus ->
   (forall m, m < length cs ->
      exists sm, fold_uses (member cs m) (init_state (member cs m) (nth m initss [])) false (proj m gus) = Ok sm /\
                 final_checks (member cs m) sm = Ok tt) ->
   exists ss', eval_group false false cs initss ws = Ok ss'.
 Proof.
-  intros Hne Hf Hl Hsp Hall. destruct cs as [|c cr]; [congruence|].
+  intros Hne Hf Hl Hsp Hk Hall. destruct cs as [|c cr]; [congruence|].
   rewrite eval_group_unfold.
   rewrite (group_words_spelled (c :: cr) gus ws _ Hf (init_states_length _ _ Hl) Hsp).
-  pose proof (gfold_proj_conv (c :: cr) gus _ (init_states_length _ _ Hl) (gspell_owner_lt _ _ _ Hsp)) as Hc.
+  pose proof (gfold_proj_conv (c :: cr) gus _ Hk (init_states_length _ _ Hl) (gspell_owner_lt _ _ _ Hne Hsp)) as Hc.
   destruct (gfold _ _ _ _ gus) as [ss1|?|?] eqn:E.
-  - cbn [bind]. destruct (gfold_proj (c :: cr) gus _ ss1 (init_states_length _ _ Hl) E) as (Hl' & Hp).
+  - cbn [bind]. destruct (gfold_proj (c :: cr) gus _ ss1 Hk (init_states_length _ _ Hl) E) as (Hl' & Hp).
     assert (Hg : group_final false (c :: cr) ss1 = Ok tt).
     { apply (group_final_nth (c :: cr) ss1 Hl'). intros m Hm.
       destruct (Hall m Hm) as (sm & Hfo & Hfin). destruct (Hp m Hm) as (sm' & Hfo' & Hs).
@@ -413,14 +518,14 @@ Qed.
     legal spelling [wsm] of the member's part, evaluated by the member alone
     through Handler::evalArguments *)
 Corollary group_member_standalone cs initss gus ws ss' :
-  all_fixed cs -> length initss = length cs -> gspell_grp cs gus ws ->
+  all_fixed cs -> length initss = length cs -> gspell_grp cs gus ws -> Forall keyed gus ->
   eval_group false false cs initss ws = Ok ss' ->
   forall m wsm, m < length cs -> spell (member cs m) (proj m gus) wsm ->
     exists sm, eval_arguments (member cs m) (nth m initss []) [] None wsm = Ok sm /\
                arts sm = arts (nth m ss' st0) /\ pend sm = pend (nth m ss' st0) /\ gsts sm = gsts (nth m ss' st0).
 Proof.
-  intros Hf Hl Hsp H m wsm Hm Hw.
-  destruct (group_projection cs initss gus ws ss' Hf Hl Hsp H m Hm) as (sm & Hfo & Hfin & Hs).
+  intros Hf Hl Hsp Hk H m wsm Hm Hw.
+  destruct (group_projection cs initss gus ws ss' Hf Hl Hsp Hk H m Hm) as (sm & Hfo & Hfin & Hs).
   exists sm. split.
   - unfold eval_arguments. cbn [eval_lines bind].
     assert (Hfm : fixed_notify (member cs m) = true).
